@@ -33,6 +33,7 @@ func runC10(c *Ctx) {
 	ruleHandlerNeverNil(c, "C10.9")
 	ruleChanDirMapping(c, "C10.10", genPkg)
 	ruleContextInjectedOnEveryPath(c, "C10.11")
+	ruleVarDeclByName(c, "C10.12")
 
 	// ---- C10.1 needed-only provenance
 	n := 0
@@ -121,115 +122,8 @@ func runC10(c *Ctx) {
 		}
 	}
 
-	// ---- C10.2 context first
-	if ica := genFn(c, "C10.2", "(*Graph).injectContextArg"); ica != nil {
-		// helpers that injectContextArg hands the injector to are part of the same rule (their stores change the same list)
-		icaFns := injectorHelpers(ica, 2)
-		stores := storesToField(icaFns, "internal/kessoku.Injector.Args")
-		isPrepend := func(st *ssa.Store) (bool, string) {
-			s := newSym(L, map[string]bool{})
-			s.maxD = 0
-			ts := s.eval(st.Val)
-			for _, t := range ts {
-				if !strings.HasPrefix(t, "builtin append(list(") || !argsOfInjectorParam.MatchString(t) {
-					return false, strings.Join(ts, " | ")
-				}
-				// exactly one element in the literal
-				inner := strings.TrimPrefix(t, "builtin append(list(")
-				depth, elems := 0, 1
-				for _, r := range inner {
-					if r == '(' {
-						depth++
-					}
-					if r == ')' {
-						if depth == 0 {
-							break
-						}
-						depth--
-					}
-					if r == ',' && depth == 0 {
-						elems++
-					}
-				}
-				if elems != 1 {
-					return false, t
-				}
-			}
-			return true, strings.Join(ts, " | ")
-		}
-		c.floor("C10.2", "stores to injector.Args in injectContextArg", len(stores), 2)
-		nP := 0
-		for _, st := range stores {
-			okP, term := isPrepend(st)
-			if okP {
-				nP++
-				// the prepended element is a context argument: the existing one found by isContextType or the new one
-				c.ok("C10.2", "injectContextArg: argument list is rebuilt as [ctx] ++ rest", term)
-				continue
-			}
-			// a non-prepend store must be followed by a prepend in the same straight-line region
-			followed := false
-			for _, p := range stores {
-				if pp, _ := isPrepend(p); pp && instrDominates(st, p) && p.Block() == st.Block() {
-					followed = true
-				}
-			}
-			c.check(followed, "C10.2", "injectContextArg:args-store", L.pos(st.Pos()), "every modification of the argument list ends with the context in front", "store of "+term+" is not followed by a prepend in the same block")
-		}
-		// every success return after the async gate is dominated by a prepend, or lies on the existing-context path
-		for _, r := range returnsOf(ica) {
-			if !returnsNilError(r) {
-				continue
-			}
-			dom := false
-			for _, st := range stores {
-				if okP, _ := isPrepend(st); okP && instrDominates(st, r) {
-					dom = true
-				}
-			}
-			if dom {
-				c.ok("C10.2", fmt.Sprintf("injectContextArg: success return in block %d is dominated by a context prepend", r.Block().Index), "dominance")
-				continue
-			}
-			// otherwise: either the !hasAsyncProviders exit, or the existing-context exit (context already at index 0 or moved by the conditional prepend)
-			just := ""
-			for _, iff := range controllingIfs(r) {
-				s := newSym(L, map[string]bool{})
-				s.maxD = 0
-				t := strings.Join(s.eval(iff.Cond), "|")
-				if strings.Contains(t, "hasAsyncProviders(") {
-					just = "no scheduled provider is Async"
-				}
-				if strings.HasPrefix(t, "bin!=(") && strings.HasSuffix(t, ", nil)") && strings.Contains(t, "InjectorArgument") || strings.Contains(t, "index(field:internal/kessoku.Injector.Args(") {
-					just = "an existing context argument was found (moved to the front when its index is > 0)"
-				}
-				if okS, _ := containsFuncOver(L, iff.Cond, "field:internal/kessoku.Injector.Args(", "isContextType", "internal/kessoku.InjectorArgument.Type"); okS {
-					just = "an existing context argument was found by slices.IndexFunc/ContainsFunc (moved to the front by the helper)"
-				}
-			}
-			c.check(just != "", "C10.2", "injectContextArg:return-without-prepend", L.pos(r.Pos()), "a success return that does not prepend the context is justified", just)
-		}
-		c.check(nP >= 2, "C10.2", "injectContextArg:prepend-count", L.pos(ica.Pos()), "both paths (existing context moved, new context created) prepend", fmt.Sprintf("%d prepend stores", nP))
-		// the moved element is found by isContextType over injector.Args
-		okFind := false
-		for _, cs := range callsIn(ica) {
-			if cal := cs.common.StaticCallee(); cal != nil && cal.Name() == "isContextType" {
-				s := newSym(L, map[string]bool{})
-				s.maxD = 0
-				if strings.Contains(strings.Join(s.eval(cs.arg(0)), "|"), "InjectorArgument.Type(index(field:internal/kessoku.Injector.Args(") {
-					okFind = true
-				}
-			}
-		}
-		for _, b := range ica.Blocks {
-			if iff, isIf := b.Instrs[len(b.Instrs)-1].(*ssa.If); isIf {
-				if okS, _ := containsFuncOver(L, iff.Cond, "field:internal/kessoku.Injector.Args(", "isContextType", "internal/kessoku.InjectorArgument.Type"); okS {
-					okFind = true
-				}
-			}
-		}
-		c.check(okFind, "C10.2", "injectContextArg:find-existing", L.pos(ica.Pos()), "an already required context.Context is recognised among the arguments by its type", "isContextType(arg.Type) over injector.Args")
-	}
+	ruleContextFirst(c, "C10.2")
+
 	ruleContextThreaded(c, "C10.2")
 
 	// ---- C10.3 one parameter per unsupplied type
@@ -621,4 +515,120 @@ func ruleArgumentTypeAsRequired(c *Ctx, rule string) {
 		}
 	}
 	c.floor(rule, "types handed to the argument constructor", nArg, 1)
+}
+
+// ruleContextFirst (C10.2): injectContextArg leaves the context as the first argument on every path that changes the list.
+func ruleContextFirst(c *Ctx, rule string) {
+	L := c.L
+	L.buildSSA()
+	gen := pkgFuncs(L, genPkg)
+	_ = gen
+	if ica := genFn(c, rule, "(*Graph).injectContextArg"); ica != nil {
+		// helpers that injectContextArg hands the injector to are part of the same rule (their stores change the same list)
+		icaFns := injectorHelpers(ica, 2)
+		stores := storesToField(icaFns, "internal/kessoku.Injector.Args")
+		isPrepend := func(st *ssa.Store) (bool, string) {
+			s := newSym(L, map[string]bool{})
+			s.maxD = 0
+			ts := s.eval(st.Val)
+			for _, t := range ts {
+				if !strings.HasPrefix(t, "builtin append(list(") || !argsOfInjectorParam.MatchString(t) {
+					return false, strings.Join(ts, " | ")
+				}
+				// exactly one element in the literal
+				inner := strings.TrimPrefix(t, "builtin append(list(")
+				depth, elems := 0, 1
+				for _, r := range inner {
+					if r == '(' {
+						depth++
+					}
+					if r == ')' {
+						if depth == 0 {
+							break
+						}
+						depth--
+					}
+					if r == ',' && depth == 0 {
+						elems++
+					}
+				}
+				if elems != 1 {
+					return false, t
+				}
+			}
+			return true, strings.Join(ts, " | ")
+		}
+		c.floor(rule, "stores to injector.Args in injectContextArg", len(stores), 2)
+		nP := 0
+		for _, st := range stores {
+			okP, term := isPrepend(st)
+			if okP {
+				nP++
+				// the prepended element is a context argument: the existing one found by isContextType or the new one
+				c.ok(rule, "injectContextArg: argument list is rebuilt as [ctx] ++ rest", term)
+				continue
+			}
+			// a non-prepend store must be followed by a prepend in the same straight-line region
+			followed := false
+			for _, p := range stores {
+				if pp, _ := isPrepend(p); pp && instrDominates(st, p) && p.Block() == st.Block() {
+					followed = true
+				}
+			}
+			c.check(followed, rule, "injectContextArg:args-store", L.pos(st.Pos()), "every modification of the argument list ends with the context in front", "store of "+term+" is not followed by a prepend in the same block")
+		}
+		// every success return after the async gate is dominated by a prepend, or lies on the existing-context path
+		for _, r := range returnsOf(ica) {
+			if !returnsNilError(r) {
+				continue
+			}
+			dom := false
+			for _, st := range stores {
+				if okP, _ := isPrepend(st); okP && instrDominates(st, r) {
+					dom = true
+				}
+			}
+			if dom {
+				c.ok(rule, fmt.Sprintf("injectContextArg: success return in block %d is dominated by a context prepend", r.Block().Index), "dominance")
+				continue
+			}
+			// otherwise: either the !hasAsyncProviders exit, or the existing-context exit (context already at index 0 or moved by the conditional prepend)
+			just := ""
+			for _, iff := range controllingIfs(r) {
+				s := newSym(L, map[string]bool{})
+				s.maxD = 0
+				t := strings.Join(s.eval(iff.Cond), "|")
+				if strings.Contains(t, "hasAsyncProviders(") {
+					just = "no scheduled provider is Async"
+				}
+				if strings.HasPrefix(t, "bin!=(") && strings.HasSuffix(t, ", nil)") && strings.Contains(t, "InjectorArgument") || strings.Contains(t, "index(field:internal/kessoku.Injector.Args(") {
+					just = "an existing context argument was found (moved to the front when its index is > 0)"
+				}
+				if okS, _ := containsFuncOver(L, iff.Cond, "field:internal/kessoku.Injector.Args(", "isContextType", "internal/kessoku.InjectorArgument.Type"); okS {
+					just = "an existing context argument was found by slices.IndexFunc/ContainsFunc (moved to the front by the helper)"
+				}
+			}
+			c.check(just != "", rule, "injectContextArg:return-without-prepend", L.pos(r.Pos()), "a success return that does not prepend the context is justified", just)
+		}
+		c.check(nP >= 2, rule, "injectContextArg:prepend-count", L.pos(ica.Pos()), "both paths (existing context moved, new context created) prepend", fmt.Sprintf("%d prepend stores", nP))
+		// the moved element is found by isContextType over injector.Args
+		okFind := false
+		for _, cs := range callsIn(ica) {
+			if cal := cs.common.StaticCallee(); cal != nil && cal.Name() == "isContextType" {
+				s := newSym(L, map[string]bool{})
+				s.maxD = 0
+				if strings.Contains(strings.Join(s.eval(cs.arg(0)), "|"), "InjectorArgument.Type(index(field:internal/kessoku.Injector.Args(") {
+					okFind = true
+				}
+			}
+		}
+		for _, b := range ica.Blocks {
+			if iff, isIf := b.Instrs[len(b.Instrs)-1].(*ssa.If); isIf {
+				if okS, _ := containsFuncOver(L, iff.Cond, "field:internal/kessoku.Injector.Args(", "isContextType", "internal/kessoku.InjectorArgument.Type"); okS {
+					okFind = true
+				}
+			}
+		}
+		c.check(okFind, rule, "injectContextArg:find-existing", L.pos(ica.Pos()), "an already required context.Context is recognised among the arguments by its type", "isContextType(arg.Type) over injector.Args")
+	}
 }
